@@ -348,6 +348,14 @@ impl Segments {
         }
     }
 
+    /// True if the newest segment is an MTU probe that was not acknowledged yet. Such a probe
+    /// can still be taken back and its bytes cut into a different number of segments.
+    pub fn has_unacked_mtu_probe(&self) -> bool {
+        self.segments
+            .back()
+            .is_some_and(|s| s.is_mtu_probe && !s.is_delivered)
+    }
+
     /// Try to pop an MTU probe if it's expired.
     pub fn pop_expired_mtu_probe(
         &mut self,
